@@ -382,7 +382,7 @@ func c18start(s *vt.Sink) {
 
 var (
 	c18rtpShapes  = []string{"payload", "csrc1", "csrc2", "csrc3", "ext", "pad", "extpad", "padold"}
-	c18rtcpShapes = []string{"single", "compound", "rrcompound", "raw"}
+	c18rtcpShapes = []string{"single", "compound", "rrcompound", "rrext", "raw"}
 )
 
 // c18shapeCases returns a copy of cs in which every case has a shape. all = false: cases
@@ -408,7 +408,7 @@ func c18shapeCases(cs []c18case, seed int64, all bool) []c18case {
 				if rs.Intn(2) == 0 {
 					c.Shape = "raw"
 				} else {
-					c.Shape = c18rtcpShapes[rs.Intn(3)]
+					c.Shape = c18rtcpShapes[rs.Intn(4)]
 				}
 			}
 			if odd && c.Shape != "raw" {
@@ -549,6 +549,7 @@ func c18rtp(n int, pt uint8, shape string, seq uint16, ts uint32, rng *rand.Rand
 //	single      one APP packet (an empty receiver report when the size is 8)
 //	compound    SenderReport + SourceDescription(CNAME) [+ APP]
 //	rrcompound  ReceiverReport with up to 3 report blocks + SourceDescription(CNAME) [+ APP]
+//	rrext       one ReceiverReport whose size comes from its profile-specific extension bytes
 //	raw         an rtcp.RawPacket of EXACTLY n bytes (valid header, APP type) - the library
 //	            writes whatever Marshal returns
 //
@@ -613,6 +614,10 @@ func c18rtcp(n int, shape, round string, rng *rand.Rand) (rtcp.Packet, int, stri
 		cp := rtcp.CompoundPacket{rr}
 		cp = append(cp, tail(n4-8-24*k)...)
 		pkt, built = &cp, "rrcompound"
+	case shape == "rrext" && n4 >= 12:
+		ext := make([]byte, n4-8)
+		rng.Read(ext)
+		pkt, built = &rtcp.ReceiverReport{SSRC: ssrc, ProfileExtensions: ext}, "rrext"
 	default:
 		pkt = app(n4)
 	}
@@ -664,7 +669,9 @@ func c18selfcheck() (err error) {
 				if merr != nil || len(b) != sz || sz != want {
 					return fmt.Errorf("c18 selfcheck: rtcp %s/%s (built %s) n=%d: %d bytes, want %d, %v", sh, rd, built, n, len(b), want, merr)
 				}
-				if sh != "raw" {
+				// (rrext: pion's marshaller leaves the extension bytes out of the header's length
+				// field, so its own parser does not take the bytes back; the sizes are what matters)
+				if sh != "raw" && sh != "rrext" {
 					if _, uerr := rtcp.Unmarshal(b); uerr != nil {
 						return fmt.Errorf("c18 selfcheck: rtcp %s n=%d does not parse: %v", sh, n, uerr)
 					}
